@@ -599,7 +599,7 @@ func compareAndWriteFile(filePath string, b []byte) (bool, error) {
 			return false, err
 		}
 
-		if err := os.WriteFile(filePath, b, 0775); err != nil {
+		if err := writeFileAtomic(filePath, b, 0775); err != nil {
 			return false, err
 		}
 		return true, nil
@@ -630,4 +630,36 @@ func compareAndWriteFile(filePath string, b []byte) (bool, error) {
 		return false, err
 	}
 	return true, nil
+}
+
+// writeFileAtomic creates filePath with content b such that a crash never leaves
+// an empty or partially written file under that name: the content goes to a
+// temporary file in the same directory first, which is then renamed into place.
+// The temporary name matches no registered metadata suffix, so a leftover from a
+// crash is ignored by Reload and removed together with the entry's directory.
+func writeFileAtomic(filePath string, b []byte, perm os.FileMode) error {
+	tmp, err := os.CreateTemp(filepath.Dir(filePath), "tmp-")
+	if err != nil {
+		return err
+	}
+	tmpPath := tmp.Name()
+	if _, err := tmp.Write(b); err != nil {
+		tmp.Close()
+		os.Remove(tmpPath)
+		return err
+	}
+	if err := tmp.Chmod(perm); err != nil {
+		tmp.Close()
+		os.Remove(tmpPath)
+		return err
+	}
+	if err := tmp.Close(); err != nil {
+		os.Remove(tmpPath)
+		return err
+	}
+	if err := os.Rename(tmpPath, filePath); err != nil {
+		os.Remove(tmpPath)
+		return err
+	}
+	return nil
 }
